@@ -388,7 +388,7 @@ pub fn gen_check(rng: &mut Rng, apps: &[AppSpec], path: Path, cup: bool, cohorts
                 Path::Denied => cs.can_start = UpdDec::Denied,
                 _ => {
                     cs.results = (0..k).map(|_| *rng.pick(&[InstRes::Installed, InstRes::Installed, InstRes::Deferred, InstRes::Failed])).collect();
-                    cs.progress = (0..rng.usize(4)).map(|i| (i as f32 + 1.0) * 0.2).collect();
+                    cs.progress = (0..rng.usize(5)).map(|i| ((i / 2) as f32 + 1.0) * 0.2).collect();
                     label.push_str(&cs.results.iter().map(|r| match r { InstRes::Installed => 'I', InstRes::Deferred => 'D', InstRes::Failed => 'F' }).collect::<String>());
                     cs.reboot_needed = rng.bool();
                     if cs.reboot_needed {
